@@ -34,6 +34,8 @@ import PercevalModel.Lemmas.C08Heralds
 import PercevalModel.Lemmas.C08Leaf
 import PercevalModel.Lemmas.C08Post
 import PercevalModel.Model.C08Glue
+import PercevalModel.Lemmas.C08Thr
+import PercevalModel.Lemmas.C08Sample
 import Mathlib.Algebra.Order.Field.Rat
 
 set_option linter.unusedSectionVars false
@@ -176,18 +178,41 @@ end detect
 section tree
 variable {K : Type} [Field K] [LinearOrder K] [IsStrictOrderedRing K]
 
-/-- the per-instance `_cache` of a `BSLayeredPPNR` is transparent over any history -/
-theorem bs_history_eq_fresh (L : ℕ) (r : K) (ns : List ℕ) :
-    (SM.run (bsInst L r) [] ns).2 = ns.map fun n => (n, bsDetect L r n) :=
-  run_outputs_eq_map (bsInst L r) (BsValid L r) (fun n => (n, bsDetect L r n))
-    (fun c n h => bsInst_step L r c n h) [] (by intro n d h; simp [DCache.get] at h) ns
+/-- the per-instance `_cache` of a `BSLayeredPPNR` is transparent over any history (at whatever `min_p` the
+backend's `add` works with) -/
+theorem bs_history_eq_fresh (minP : K) (L : ℕ) (r : K) (ns : List ℕ) :
+    (SM.run (bsInst minP L r) [] ns).2 = ns.map fun n => (n, bsDetectP minP L r n) :=
+  run_outputs_eq_map (bsInst minP L r) (BsValid minP L r) (fun n => (n, bsDetectP minP L r n))
+    (fun c n h => bsInst_step minP L r c n h) [] (by intro n d h; simp [DCache.get] at h) ns
 
 /-- the click distribution of the beam-splitter tree is a probability distribution, for every
 depth, every admissible reflectivity and every photon number -/
 theorem bsDetect_mass_one {L : ℕ} {r : K} {p : ℕ × K} (h : mkBS L r = .ok p) (n : ℕ) :
     mass (bsDetect p.1 p.2 n).toDist = 1 ∧ Nonneg (bsDetect p.1 p.2 n).toDist := by
-  have := kernel_mass_one (K := K) (minP := 0) (le_refl _) (.bs p.1 p.2) (mkBS_wf h) n
-  simpa [AnyDet.kernel, AnyDet.detect] using this
+  have hwf := mkBS_wf h
+  unfold bsDetect
+  split
+  · exact ⟨by simp [DetOut.toDist], by intro e he; simp [DetOut.toDist] at he; subst he; simp⟩
+  · exact ⟨by simp only [DetOut.toDist]; rw [aggregate_mass, treeOcc_mass],
+      aggregate_nonneg (treeOcc_nonneg hwf.1 hwf.2 p.1 n)⟩
+
+/-- **the function as coded has the law `bsDetect` at `min_p ≤ 0`**: `BSLayeredPPNR.detect` takes the backend's
+`prob_distribution()`, which is built with `add` (a leaf state whose probability is not above `min_p` is dropped
+before the click counts are summed: `bsDetectP`); with `min_p ≤ 0` nothing but zero entries is dropped and every
+click count holds what the `min_p`-free law `bsDetect` of the theorems below holds -/
+theorem bsDetectP_eq_law {L : ℕ} {r : K} {p : ℕ × K} (h : mkBS L r = .ok p) {minP : K} (hmin : minP ≤ 0)
+    (n k : ℕ) :
+    wt (bsDetectP minP p.1 p.2 n).toDist k = wt (bsDetect p.1 p.2 n).toDist k := by
+  have hwf := mkBS_wf h
+  unfold bsDetectP bsDetect
+  split
+  · rfl
+  · simp only [DetOut.toDist]
+    rw [wt_aggregate_treeOccP, wt_aggregate_sum]
+    congr 1
+    apply List.map_congr_left
+    intro e he
+    rw [keep_of_nonpos hmin (treeOcc_nonneg hwf.1 hwf.2 p.1 n e he)]
 
 /-- **bsTree_half_eq_wires** (the design's stretch goal). For reflectivity `1/2`, every depth `L`
 (including the degenerate `L = 0`: one wire), every photon number `n` and every click count `k`, the
@@ -410,20 +435,25 @@ theorem simulate_detectors_pointwise_minp (minP : K) (ds : List (AnyDet K))
       simGeneral_wt_minp minP minPhotons ds hwf hne dist hlen t]
 
 /-- every entry of a mode's detector result at `min_p` is the entry of the `min_p = 0` law (the
-folded click law of `detect_fold`, the tree law, or a point mass), untouched or passed through
-`add`: kept if it exceeds `min_p`, dropped otherwise -/
+folded click law of `detect_fold`, the tree law, or a point mass), untouched, or passed through
+`add` (kept if it exceeds `min_p`, dropped otherwise), or — beam-splitter tree hit by `≥ 2` photons — the sum
+over the leaf states with `k` clicks of the backend's leaf probabilities, each kept iff it exceeds `min_p`
+(`SLOSBackend.prob_distribution()` builds its result with `add`) -/
 theorem kernel_entry_minp (minP : K) (d : AnyDet K) (hd : d.WF) (n k : ℕ) :
     prob (d.kernel minP n) k = prob (d.kernel 0 n) k ∨
-      prob (d.kernel minP n) k = keep minP (prob (d.kernel 0 n) k) := by
+      prob (d.kernel minP n) k = keep minP (prob (d.kernel 0 n) k) ∨
+      ∃ L r, d = .bs L r ∧ 2 ≤ n ∧ prob (d.kernel minP n) k
+        = ((treeOcc r L n).map fun e => if clicks e.1 = k then keep minP e.2 else 0).sum := by
   rw [prob_eq_wt _ (kernel_nodup minP d n), prob_eq_wt _ (kernel_nodup 0 d n)]
   exact kernel_wt_minp minP d hd n k
 
 /-- **deviation bound for `min_p ≥ 0`: at most `min_p` per contribution.** Outside the all-PNR
-branch, for every list of `m` constructible detectors, every non-negative input distribution over
+branch, for every list of constructible detectors, every non-negative input distribution over
 states of the right length, every photon filter and every output state `t`: the un-normalised result
 at `t` is never above the exact (`min_p = 0`) law `E(t)` of `simulate_detectors_pointwise`, and below
-it by at most `min_p·(m·mass(dist) + |dist|)` — per input state `(s,p)`: `m` kernel entries that may
-each have lost `≤ min_p` (weighted by `p`) and one accumulation that may have lost `≤ min_p`.
+it by at most `min_p·(∑_{(s,p)} p·kcount(s) + |dist|)` — per input state `(s,p)`: the `kcount(s)` `add` calls behind
+its kernels (`Detector.detect`: at most the photons of the mode; beam-splitter tree: one per leaf state in the
+backend) may each have lost `≤ min_p` (weighted by `p`) and one accumulation may have lost `≤ min_p`.
 (All-threshold branch: no deviation at all.) -/
 theorem simulate_detectors_minp_bound {minP : K} (h0 : 0 ≤ minP) (ds : List (AnyDet K))
     (hwf : ∀ d ∈ ds, d.WF) (dist : Dist (List ℕ) K) (hnn : Nonneg dist)
@@ -434,11 +464,11 @@ theorem simulate_detectors_minp_bound {minP : K} (h0 : 0 ≤ minP) (ds : List (A
            else (dist.map fun e => e.2 * kprod (kernels 0 ds e.1) t).sum) ∧
       (if belowFilter minPhotons t then 0
         else (dist.map fun e => e.2 * kprod (kernels 0 ds e.1) t).sum)
-          - minP * ((ds.length : K) * mass dist + (dist.length : K))
+          - minP * ((dist.map fun e => e.2 * (kcount ds e.1 : K)).sum + (dist.length : K))
         ≤ prob (simulateRaw minP dist ds minPhotons).1 t := by
-  have hslack : 0 ≤ minP * ((ds.length : K) * mass dist + (dist.length : K)) :=
-    mul_nonneg h0 (add_nonneg (mul_nonneg (Nat.cast_nonneg _) (mass_nonneg dist hnn))
-      (Nat.cast_nonneg _))
+  have hslack : 0 ≤ minP * ((dist.map fun e => e.2 * (kcount ds e.1 : K)).sum + (dist.length : K)) := by
+    apply mul_nonneg h0 (add_nonneg _ (Nat.cast_nonneg _))
+    exact sum_map_nonneg _ _ fun e he => mul_nonneg (hnn e he) (Nat.cast_nonneg _)
   simp only [simulateRaw, if_neg hbr]
   split
   · next hthr =>
@@ -461,8 +491,9 @@ theorem simulate_detectors_minp_bound {minP : K} (h0 : 0 ≤ minP) (ds : List (A
 lost.** In whichever branch, for every list of constructible detectors, every non-negative input
 distribution over states of the right length and every photon filter:
   `mass(dist) − min_p·addCalls ≤ retained mass + (1 − phys_perf) ≤ mass(dist)`,
-where `addCalls = ∑_{(s,p) ∈ dist} (p·(photons of s) + number of output states recorded for s)`
-counts the `add` calls (those inside `Detector.detect` enter weighted by `p`).  For `min_p = 0` this
+where `addCalls = ∑_{(s,p) ∈ dist} (p·kcount(s) + number of output states recorded for s)`
+counts the `add` calls (those behind the kernels — `Detector.detect`: at most the photons of the mode; tree: one per
+leaf state in the backend — enter weighted by `p`).  For `min_p = 0` this
 is the identity of `simulate_detectors_mass`. -/
 theorem simulate_detectors_mass_minp {minP : K} (h0 : 0 ≤ minP) (ds : List (AnyDet K))
     (hwf : ∀ d ∈ ds, d.WF) (dist : Dist (List ℕ) K) (hnn : Nonneg dist)
@@ -991,6 +1022,309 @@ theorem probs_svd_pnr_conditioned_law (minP : K) (ds : List (AnyDet K)) (base : 
     field_simp
 
 end fullTail
+
+/-! ## `prob_threshold > 0` (and `min_p > 0`): which states are dropped, how far the result can move
+(model `Model/C08Thr.lean`, lemmas `Lemmas/C08Thr.lean`) -/
+section threshold
+variable {K : Type} [Field K] [LinearOrder K] [IsStrictOrderedRing K]
+
+/-- `simulate_detectors(…, prob_threshold=0)` (the default) is the model of the earlier rounds -/
+theorem simulate_threshold_zero (minP : K) (dist : Dist (List ℕ) K) (ds : List (AnyDet K)) (mp : Option ℕ) :
+    simulateThr minP 0 dist ds mp = simulate minP dist ds mp :=
+  simulateThr_zero minP dist ds mp
+
+/-- the all-PNR branch, the all-threshold branch and the empty distribution never read `prob_threshold` -/
+theorem simulate_threshold_ignored (minP T : K) (dist : Dist (List ℕ) K) (ds : List (AnyDet K))
+    (mp : Option ℕ)
+    (h : dist.isEmpty ∨ detectionType ds = .PNR ∨ detectionType ds = .Threshold) :
+    simulateThr minP T dist ds mp = simulate minP dist ds mp := by
+  unfold simulateThr simulate simulateRawThr simulateRaw
+  by_cases h1 : dist.isEmpty ∨ detectionType ds = .PNR
+  · simp only [h1, if_true]
+  · have h2 : detectionType ds = .Threshold := by tauto
+    simp only [h1, h2, if_true]
+
+/-- `list_tensor_product` of ONE factor returns it untouched — the threshold is not applied (a one-mode
+`simulate_detectors` never drops anything) -/
+theorem tensor_threshold_single_factor (T : K) (d : Dist ℕ K) (t : List ℕ) :
+    wt (listTensorThr T [d]) t = kprod [d] t :=
+  wt_lift d t
+
+/-- **which output states `list_tensor_product(…, prob_threshold=T)` drops** (two factors or more, dictionaries
+without repeated keys): the state `t` gets `kthr T 1 (trimmed factors) t`, where every factor is first trimmed to
+its entries `> T` and -/
+theorem tensor_threshold_exact (T : K) (d1 d2 : Dist ℕ K) (rest : List (Dist ℕ K))
+    (hnd : ∀ d ∈ d1 :: d2 :: rest, (keys d).Nodup) (t : List ℕ) :
+    wt (listTensorThr T (d1 :: d2 :: rest)) t = kthr T 1 ((d1 :: d2 :: rest).map (trimThr T)) t :=
+  listTensorThr_wt T d1 d2 rest hnd t
+
+/-- …`kthr` walks through the modes with the running product `q`: the branch is abandoned (weight `0`) as soon
+as `q · entry < T` (a running product EQUAL to `T` survives), the full product is recorded otherwise; a trimmed
+factor holds the entry when it is `> T` (strict) and nothing otherwise -/
+theorem tensor_threshold_walk (T q : K) (d : Dist ℕ K) (ds : List (Dist ℕ K)) (k : ℕ) (t : List ℕ)
+    (hnd : (keys d).Nodup) :
+    kthr T q (d :: ds) (k :: t) = (if q * wt d k < T then 0 else kthr T (q * wt d k) ds t) ∧
+      kthr T q ([] : List (Dist ℕ K)) [] = q ∧ wt (trimThr T d) k = keep T (wt d k) :=
+  ⟨rfl, rfl, wt_trimThr T d hnd k⟩
+
+/-- **a dropped state is small, a kept state is exact.** For every list of constructible detectors, every
+input state `s` of the right length, `min_p ≥ 0` and threshold `T' ≥ 0`: the weight of `t` in the thresholded kernel
+product is either the full product `∏_i kernel_i(s_i)(t_i)` or `0`, and in the second case that product is
+`≤ T'` -/
+theorem threshold_dropped_state_is_small {minP T' : K} (h0 : 0 ≤ minP) (hT : 0 ≤ T') (ds : List (AnyDet K))
+    (hwf : ∀ d ∈ ds, d.WF) (s : List ℕ) (hlen : s.length = ds.length) (hne : ds ≠ []) (t : List ℕ) :
+    wt (stateDistThr minP T' ds s) t = kprod (kernels minP ds s) t ∨
+      (wt (stateDistThr minP T' ds s) t = 0 ∧ kprod (kernels minP ds s) t ≤ T') :=
+  stateDistThr_cases h0 hT ds hwf s hlen hne t
+
+/-- the threshold used for the input state `(s, p)` is `max(T, T/(10p))`; `p` times it is at most
+`T·(p + 1/10)` -/
+theorem effective_threshold_bound {T p : K} (hT : 0 ≤ T) (hp : 0 ≤ p) :
+    T ≤ teff T p ∧ p * teff T p ≤ T * (p + 1 / 10) :=
+  ⟨(teff_bounds hT hp).2.1, (teff_bounds hT hp).2.2⟩
+
+/-- **deviation of `simulate_detectors` at `(min_p, prob_threshold = T)` from the exact law**, in every branch,
+for every list of constructible detectors, non-negative input over states of the right length, photon filter,
+`min_p ≥ 0`, `T ≥ 0` (`simulateRaw 0` is the exact law of `simulate_detectors_pointwise` / `simulate_detectors_mass`):
+* `phys_perf` is never below the exact one and above it by at most
+  `physSlack = ∑_{(s,p)} (min_p·p·kcount(s) + N_s·T·(p + 1/10))`, `N_s` = number of output states of `s`,
+  `kcount(s)` = number of `add` calls behind its kernels;
+* the retained mass is never above the exact one and below it by at most
+  `massSlack = physSlack + min_p·(number of recorded output states)`;
+* every entry of the un-normalised result is never above the exact one and below it by at most
+  `pointSlack = ∑_{(s,p)} (min_p·(kcount(s)·p + 1) + T·(p + 1/10))`. -/
+theorem simulate_detectors_threshold_bound {minP T : K} (h0 : 0 ≤ minP) (hT : 0 ≤ T) (ds : List (AnyDet K))
+    (hwf : ∀ d ∈ ds, d.WF) (dist : Dist (List ℕ) K) (hnn : Nonneg dist)
+    (hlen : ∀ e ∈ dist, e.1.length = ds.length) (mp : Option ℕ) :
+    (simulateRaw 0 dist ds mp).2 ≤ (simulateRawThr minP T dist ds mp).2 ∧
+    (simulateRawThr minP T dist ds mp).2 ≤ (simulateRaw 0 dist ds mp).2 + physSlack minP T ds dist ∧
+    mass (simulateRawThr minP T dist ds mp).1 ≤ mass (simulateRaw 0 dist ds mp).1 ∧
+    mass (simulateRaw 0 dist ds mp).1 - massSlack minP T ds dist ≤ mass (simulateRawThr minP T dist ds mp).1 ∧
+    ∀ t, prob (simulateRawThr minP T dist ds mp).1 t ≤ prob (simulateRaw 0 dist ds mp).1 t ∧
+      prob (simulateRaw 0 dist ds mp).1 t - pointSlack minP T ds dist
+        ≤ prob (simulateRawThr minP T dist ds mp).1 t :=
+  simulateRawThr_vs_exact h0 hT ds hwf dist hnn hlen mp
+
+/-- the slacks, spelled out -/
+theorem threshold_slacks (minP T : K) (ds : List (AnyDet K)) (dist : Dist (List ℕ) K) :
+    physSlack minP T ds dist
+      = (dist.map fun e => minP * (e.2 * (kcount ds e.1 : K))
+          + ((stateDist minP ds e.1).length : K) * (T * (e.2 + 1 / 10))).sum ∧
+    massSlack minP T ds dist
+      = (dist.map fun e => minP * (e.2 * (kcount ds e.1 : K))
+          + ((stateDist minP ds e.1).length : K) * (T * (e.2 + 1 / 10))
+          + minP * ((stateDistThr minP (teff T e.2) ds e.1).length : K)).sum ∧
+    pointSlack minP T ds dist
+      = (dist.map fun e => (minP * ((kcount ds e.1 : K) * e.2) + T * (e.2 + 1 / 10)) + minP).sum :=
+  ⟨rfl, rfl, rfl⟩
+
+/-- **the NORMALISED result at `(min_p, T)`**: as long as the slack of the retained mass is smaller than the
+exact retained mass `M`, every entry of the returned distribution lies in
+`[exact − pointSlack/M, exact + massSlack/(M − massSlack)]` -/
+theorem simulate_detectors_threshold_normalised {minP T : K} (h0 : 0 ≤ minP) (hT : 0 ≤ T)
+    (ds : List (AnyDet K)) (hwf : ∀ d ∈ ds, d.WF) (dist : Dist (List ℕ) K) (hnn : Nonneg dist)
+    (hlen : ∀ e ∈ dist, e.1.length = ds.length) (mp : Option ℕ)
+    (hbr : ¬ (dist.isEmpty ∨ detectionType ds = .PNR))
+    (hpos : massSlack minP T ds dist < mass (simulateRaw 0 dist ds mp).1) (t : List ℕ) :
+    prob (simulate 0 dist ds mp).1 t - pointSlack minP T ds dist / mass (simulateRaw 0 dist ds mp).1
+        ≤ prob (simulateThr minP T dist ds mp).1 t ∧
+      prob (simulateThr minP T dist ds mp).1 t
+        ≤ prob (simulate 0 dist ds mp).1 t
+          + massSlack minP T ds dist / (mass (simulateRaw 0 dist ds mp).1 - massSlack minP T ds dist) := by
+  obtain ⟨_, _, m1, m2, hpt⟩ := simulateRawThr_vs_exact h0 hT ds hwf dist hnn hlen mp
+  obtain ⟨p1, p2⟩ := hpt t
+  have hΔ := massSlack_nonneg h0 hT ds dist hnn
+  have hME : mass (simulateRaw 0 dist ds mp).1 ≠ 0 := ne_of_gt (lt_of_le_of_lt hΔ hpos)
+  have hM : mass (simulateRawThr minP T dist ds mp).1 ≠ 0 :=
+    ne_of_gt (lt_of_lt_of_le (sub_pos.2 hpos) m2)
+  rw [simulate_detectors_normalised 0 ds dist mp hbr hME t, simulateThr_prob minP T ds dist mp hbr hM t]
+  have hnn0 := simulateRaw_nonneg (le_refl (0 : K)) ds hwf dist hnn mp
+  have hnnT := simulateRawThr_nonneg h0 T ds hwf dist hnn mp
+  have hEM : prob (simulateRaw 0 dist ds mp).1 t ≤ mass (simulateRaw 0 dist ds mp).1 := by
+    rw [prob_eq_wt _ (simulateRaw_nodup 0 dist ds mp hbr)]; exact wt_le_mass _ hnn0 t
+  have hR0 : 0 ≤ prob (simulateRawThr minP T dist ds mp).1 t := by
+    rw [prob_eq_wt _ (simulateRawThr_nodup minP T dist ds mp hbr)]; exact wt_nonneg _ hnnT t
+  exact normalised_dev hR0 p1 p2 hEM m1 m2 (sub_pos.2 hpos) hΔ
+
+/-- **`min_p > 0`, `phys_perf` taken ALONE and the retained mass ALONE** (target of the earlier rounds' "not
+proved" list): for the model of `simulate_detectors` as shipped (`prob_threshold = 0`), every `min_p ≥ 0`:
+`exact ≤ phys_perf ≤ exact + min_p·∑ p·kcount(s)` (`kcount(s)` = `add` calls behind the kernels of `s`) and
+`exact − min_p·addCalls ≤ retained mass ≤ exact` -/
+theorem simulate_detectors_phys_minp {minP : K} (h0 : 0 ≤ minP) (ds : List (AnyDet K))
+    (hwf : ∀ d ∈ ds, d.WF) (dist : Dist (List ℕ) K) (hnn : Nonneg dist)
+    (hlen : ∀ e ∈ dist, e.1.length = ds.length) (mp : Option ℕ) :
+    (simulateRaw 0 dist ds mp).2 ≤ (simulateRaw minP dist ds mp).2 ∧
+    (simulateRaw minP dist ds mp).2
+      ≤ (simulateRaw 0 dist ds mp).2 + minP * (dist.map fun e => e.2 * (kcount ds e.1 : K)).sum ∧
+    mass (simulateRaw minP dist ds mp).1 ≤ mass (simulateRaw 0 dist ds mp).1 ∧
+    mass (simulateRaw 0 dist ds mp).1 - minP * addCalls minP ds dist ≤ mass (simulateRaw minP dist ds mp).1 := by
+  obtain ⟨a, b, c, d, _⟩ := simulateRawThr_vs_exact h0 (le_refl (0 : K)) ds hwf dist hnn hlen mp
+  rw [simulateRawThr_zero] at a b c d
+  rw [physSlack_zero] at b
+  rw [massSlack_zero] at d
+  exact ⟨a, b, c, d⟩
+
+/-- **`min_p > 0`, the NORMALISED result** (what `simulate_detectors` returns): as long as
+`min_p·addCalls` is smaller than the exact retained mass `M`, every entry of the returned distribution lies in
+`[exact − min_p·(∑ p·kcount(s) + |dist|)/M, exact + min_p·addCalls/(M − min_p·addCalls)]` — the two proved
+bounds divided, with the lower bound of the retained mass from `simulate_detectors_phys_minp` -/
+theorem simulate_detectors_normalised_minp {minP : K} (h0 : 0 ≤ minP) (ds : List (AnyDet K))
+    (hwf : ∀ d ∈ ds, d.WF) (dist : Dist (List ℕ) K) (hnn : Nonneg dist)
+    (hlen : ∀ e ∈ dist, e.1.length = ds.length) (mp : Option ℕ)
+    (hbr : ¬ (dist.isEmpty ∨ detectionType ds = .PNR))
+    (hpos : minP * addCalls minP ds dist < mass (simulateRaw 0 dist ds mp).1) (t : List ℕ) :
+    prob (simulate 0 dist ds mp).1 t
+          - minP * ((dist.map fun e => e.2 * (kcount ds e.1 : K)).sum + (dist.length : K))
+            / mass (simulateRaw 0 dist ds mp).1
+        ≤ prob (simulate minP dist ds mp).1 t ∧
+      prob (simulate minP dist ds mp).1 t
+        ≤ prob (simulate 0 dist ds mp).1 t
+          + minP * addCalls minP ds dist
+            / (mass (simulateRaw 0 dist ds mp).1 - minP * addCalls minP ds dist) := by
+  have h := simulate_detectors_threshold_normalised h0 (le_refl (0 : K)) ds hwf dist hnn hlen mp hbr
+    (by rw [massSlack_zero]; exact hpos) t
+  rw [simulateThr_zero, massSlack_zero, pointSlack_zero] at h
+  exact h
+
+end threshold
+
+/-! ## `simulate_detectors_sample` at an arbitrary `min_p`; `tensor_product`'s empty-left-factor quirk
+(`Lemmas/C08Sample.lean`) -/
+section sampleMinP
+variable {K : Type} [Field K] [LinearOrder K] [IsStrictOrderedRing K]
+
+/-- **the sample is drawn from the mode-wise kernel product at ANY `min_p`, under the explicit guard "no per-mode
+result is an empty dictionary"**: the distribution the state is drawn from is non-empty, holds at `t` the product
+of the kernels' entries (kernels at that `min_p`: `kernel_entry_minp`) and has the product of the kernels' masses
+as total mass (`BSDistribution.sample` divides by it) -/
+theorem sample_law_is_kernel_product_minp (minP : K) (ds : List (AnyDet K)) (hwf : ∀ d ∈ ds, d.WF)
+    (s : List ℕ) (hlen : s.length = ds.length) (hguard : ∀ k ∈ kernels minP ds s, k ≠ []) :
+    ∃ r, sampleLaw true minP ds s = .ok r ∧ r ≠ [] ∧ mass r = ((kernels minP ds s).map mass).prod ∧
+      ∀ t, wt r t = kprod (kernels minP ds s) t := by
+  have hone : ∀ (f : AnyDet K → ℕ → Dist ℕ K), (∀ d ∈ ds, ∀ n, mass (f d n) = 1) →
+      ((List.zipWith (fun n d => f d n) s ds).map mass).prod = 1 := by
+    intro f hf
+    apply List.prod_eq_one
+    intro x hx
+    obtain ⟨k, hk, rfl⟩ := List.mem_map.mp hx
+    rw [List.mem_iff_getElem] at hk
+    obtain ⟨i, hi, rfl⟩ := hk
+    rw [List.getElem_zipWith]
+    exact hf _ (List.getElem_mem _) _
+  unfold sampleLaw
+  simp only []
+  split
+  · next hp =>
+    have hall := detectionType_pnr_all ds hp
+    refine ⟨_, rfl, by simp, ?_, fun t => ?_⟩
+    · have : ((kernels minP ds s).map mass).prod = 1 :=
+        hone (fun d n => d.kernel minP n) fun d hd n => by rw [kernel_of_pnr minP d (hall d hd) n]; simp
+      rw [this]; simp
+    · rw [kprod_pnr minP ds hall s hlen t]; simp [wt]
+  · next hp =>
+    split
+    · next ht =>
+      have hall := detectionType_threshold_all ds ht
+      refine ⟨_, rfl, by simp, ?_, fun t => ?_⟩
+      · have : ((kernels minP ds s).map mass).prod = 1 :=
+          hone (fun d n => d.kernel minP n) fun d hd n => by
+            rw [kernel_of_threshold minP d (hall d hd) n]; simp
+        rw [this]; simp
+      · rw [kprod_threshold minP ds hall s hlen t]; simp [wt]
+    · have hne : ds ≠ [] := by
+        intro h; subst h; exact hp rfl
+      obtain ⟨r, h1, _, h3, h4, h5⟩ := sampleLoop_spec_gen minP s ds hwf hguard [] [] (fun _ => rfl)
+        (fun h => absurd rfl h) (by simpa using kernels_ne_nil minP hne hlen)
+      exact ⟨r, h1, h3, by simpa using h4, by simpa using h5⟩
+
+/-- the guard holds whenever `min_p · (add calls behind the mode's result) < 1` in every mode (`Detector`: the
+photons of the mode; tree: its leaf states) — at the shipped `min_p = 1e-16`: fewer than `10^16`; and then the total
+mass is within `min_p · kcount(s)` of one -/
+theorem sample_guard_of_small_minp {minP : K} (h0 : 0 ≤ minP) (ds : List (AnyDet K)) (hwf : ∀ d ∈ ds, d.WF)
+    (s : List ℕ) (h : ∀ p ∈ List.zip s ds, minP * (p.2.addCount p.1 : K) < 1) :
+    (∀ k ∈ kernels minP ds s, k ≠ []) ∧
+      1 - (kcount ds s : K) * minP ≤ ((kernels minP ds s).map mass).prod ∧
+      ((kernels minP ds s).map mass).prod ≤ 1 :=
+  ⟨kernels_ne_nil_of_small ds hwf s h, (kernels_mass_prod_bounds h0 ds hwf s).2.2,
+    (kernels_mass_prod_bounds h0 ds hwf s).2.1⟩
+
+/-- **which per-mode result can be an empty dictionary**: only `Detector(w ≥ 2 wires, ·).detect(n ≥ 2)` — exactly
+when `add` dropped every entry: all `_cond_probability(i, n)`, `1 ≤ i < max_detectable`, and the remainder given to
+the highest reading are `≤ min_p` — and `BSLayeredPPNR.detect(n ≥ 2)` — exactly when the backend's `add` dropped
+every leaf state -/
+theorem kernel_empty_iff (minP : K) (d : AnyDet K) (n : ℕ) :
+    d.kernel minP n = [] ↔
+      (∃ w mx, d = .det (.wired w mx) ∧ 2 ≤ n ∧ w ≠ 1 ∧
+        (∀ i ∈ List.range' 1 (min mx n - 1), condProb w i n ≤ minP) ∧
+        (detectLoop w n minP (List.range' 1 (min mx n - 1)) ([], 1)).2 ≤ minP) ∨
+      (∃ L r, d = .bs L r ∧ 2 ≤ n ∧ ∀ e ∈ treeOcc r L n, e.2 ≤ minP) := by
+  rw [kernel_eq_nil_iff minP d n]
+  constructor
+  · rintro (⟨w, mx, h1, h2, h3, h4⟩ | h)
+    · exact Or.inl ⟨w, mx, h1, h2, h3, (detectWired_eq_nil_iff w mx minP n).mp h4⟩
+    · exact Or.inr h
+  · rintro (⟨w, mx, h1, h2, h3, h4⟩ | h)
+    · exact Or.inl ⟨w, mx, h1, h2, h3, (detectWired_eq_nil_iff w mx minP n).mpr h4⟩
+    · exact Or.inr h
+
+/-- **`tensor_product`'s quirk, exactly**: an empty LEFT factor returns the RIGHT factor (`if len(bsd1) == 0:
+return bsd2`), an empty RIGHT factor returns the empty distribution -/
+theorem tensor_product_empty_factor (a b : Dist (List ℕ) K) :
+    tensor2 ([] : Dist (List ℕ) K) b = b ∧ tensor2 a ([] : Dist (List ℕ) K) = [] :=
+  ⟨tensor2_nil_left b, tensor2_nil_right a⟩
+
+/-- **consequence for `simulate_detectors_sample`** (mixed / pseudo-PNR lists): if the per-mode result of mode
+`|s1|` is an empty dictionary, everything accumulated before it is lost and the loop restarts from the empty
+distribution on the remaining modes — so the drawn state only has the modes AFTER the last empty result, with the
+kernel product of those modes as law (and `BSDistribution.sample` raises `RuntimeError` when nothing follows) -/
+theorem sample_restarts_after_empty_kernel (minP : K) (s1 s2 : List ℕ) (n : ℕ) (d1 d2 : List (AnyDet K))
+    (d : AnyDet K) (hl : s1.length = d1.length) (hk : d.kernel minP n = [])
+    (hty : detectionType (d1 ++ d :: d2) ≠ .PNR ∧ detectionType (d1 ++ d :: d2) ≠ .Threshold) :
+    sampleLaw true minP (d1 ++ d :: d2) (s1 ++ n :: s2) = sampleLoop true minP s2 d2 [] ∧
+      (s2 = [] → sampleLaw true minP (d1 ++ d :: d2) (s1 ++ n :: s2) = .ok []) ∧
+      ((∀ x ∈ d2, x.WF) → s2.length = d2.length → d2 ≠ [] → (∀ k ∈ kernels minP d2 s2, k ≠ []) →
+        ∃ r, sampleLaw true minP (d1 ++ d :: d2) (s1 ++ n :: s2) = .ok r ∧ r ≠ [] ∧
+          ∀ t, wt r t = kprod (kernels minP d2 s2) t) := by
+  have h1 : sampleLaw true minP (d1 ++ d :: d2) (s1 ++ n :: s2) = sampleLoop true minP s2 d2 [] := by
+    unfold sampleLaw
+    simp only [hty.1, hty.2, if_false]
+    exact sampleLoop_restart minP s1 s2 n d1 d2 d hl hk []
+  refine ⟨h1, ?_, ?_⟩
+  · intro h; rw [h1, h]; simp [sampleLoop]
+  · intro hwf hlen hne hguard
+    obtain ⟨r, e1, _, e3, _, e5⟩ := sampleLoop_spec_gen minP s2 d2 hwf hguard [] [] (fun _ => rfl)
+      (fun h => absurd rfl h) (by simpa using kernels_ne_nil minP hne hlen)
+    exact ⟨r, by rw [h1]; exact e1, e3, by simpa using e5⟩
+
+end sampleMinP
+
+/-- **the quirk on a concrete input** (replayed on the real code by the harness, corpus
+`sample-empty-kernel-quirk.json`): with `min_p = 1/2`, `Detector.ppnr(2).detect(2)` is the EMPTY dictionary (both
+entries are `1/2`, not `> min_p`), and `simulate_detectors_sample(|1,2,1>, [None, ppnr(2), None])` returns the ONE-mode
+state `|1>`; with the empty result in the last mode nothing is left to draw from -/
+theorem sample_quirk_witness :
+    (Det.wired 2 2).detect (1 / 2 : ℚ) 2 = .dist [] ∧
+    sampleLaw true (1 / 2 : ℚ) [.none, .det (.wired 2 2), .none] [1, 2, 1] = .ok [([1], 1)] ∧
+    sampleLaw true (1 / 2 : ℚ) [.none, .det (.wired 2 2)] [1, 2] = .ok [] := by
+  have h : detectWired 2 2 (1 / 2 : ℚ) 2 = [] := by
+    norm_num [detectWired, detectLoop, List.range', addP, bump, condProb]
+  have hd : (Det.wired 2 2).detect (1 / 2 : ℚ) 2 = .dist [] := by
+    rw [detect_wired_big 2 2 _ (by omega) (by omega), h]
+  have hk : (AnyDet.det (.wired 2 2) : AnyDet ℚ).kernel (1 / 2) 2 = [] := by
+    show ((Det.wired 2 2).detect (1 / 2 : ℚ) 2).toDist = []
+    rw [hd]; rfl
+  have hty3 : detectionType ([.none] ++ .det (.wired 2 2) :: [.none] : List (AnyDet ℚ)) = .Mixed := by
+    simp [detectionType, detTypeLoop, AnyDet.type, Det.type]
+  have hty2 : detectionType ([.none] ++ .det (.wired 2 2) :: [] : List (AnyDet ℚ)) = .Mixed := by
+    simp [detectionType, detTypeLoop, AnyDet.type, Det.type]
+  refine ⟨hd, ?_, ?_⟩
+  · have h3 := (sample_restarts_after_empty_kernel (1 / 2 : ℚ) [1] [1] 2 [.none] [.none] (.det (.wired 2 2))
+      rfl hk (by rw [hty3]; exact ⟨by decide, by decide⟩)).1
+    show sampleLaw true (1 / 2 : ℚ) ([.none] ++ .det (.wired 2 2) :: [.none]) ([1] ++ 2 :: [1]) = _
+    rw [h3]; rfl
+  · have h3 := (sample_restarts_after_empty_kernel (1 / 2 : ℚ) [1] [] 2 [.none] [] (.det (.wired 2 2))
+      rfl hk (by rw [hty2]; exact ⟨by decide, by decide⟩)).2.1 rfl
+    exact h3
 
 /-! ## non-vacuity and concrete values (evaluated by the kernel over ℚ) -/
 section examples
